@@ -1277,22 +1277,44 @@ func (P) Gen(r *core.Rand, tier string, emit func(ops []string)) {
 			rec(nil, n)
 		}
 		core.Notes["exhaustive"] = "all 6^n placements × n! release orders for n=1..3 (1374 scenarios), x=q=s=0, body 64"
-		for i := 0; i < 500; i++ {
+		// one connection: every point × warm-up exchanges × close flags × body sizes
+		for _, p := range points {
+			for x := 0; x <= 2; x++ {
+				for fl := 0; fl < 4; fl++ {
+					for _, b := range []int{0, 64, 5000, 70000} {
+						emit([]string{scnOp([]string{p}, []int{x}, []int{fl & 1}, []int{fl >> 1}, []int{0}, b)})
+					}
+				}
+			}
+		}
+		for i := 0; i < 4000; i++ {
 			emit([]string{randScn(r, i%4 == 0)})
 		}
-		for i := 0; i < 60; i++ {
+		for i := 0; i < 200; i++ {
 			emit([]string{fmt.Sprintf("race c=%d d=%d", r.Pick2(r.Range(1, 6), r.Range(7, 32)), r.Pick2(0, r.Range(0, 3000)))})
 		}
 		return
 	}
-	// quick: every point once alone, then a seeded sample
-	for _, p := range points {
-		emit([]string{scnOp([]string{p}, zeros(1), zeros(1), zeros(1), zeros(1), 64)})
+	// quick: exhaustive for 1 and 2 connections (6 + 36·2 scenarios), then a seeded sample
+	var rec2 func(pts []string, n int)
+	rec2 = func(pts []string, n int) {
+		if len(pts) == n {
+			for _, o := range perms(n) {
+				emit([]string{scnOp(pts, zeros(n), zeros(n), zeros(n), o, 64)})
+			}
+			return
+		}
+		for _, p := range points {
+			rec2(append(append([]string{}, pts...), p), n)
+		}
 	}
-	for i := 0; i < 110; i++ {
+	rec2(nil, 1)
+	rec2(nil, 2)
+	core.Notes["exhaustive"] = "all 6^n placements × n! release orders for n=1..2 (78 scenarios), x=q=s=0, body 64"
+	for i := 0; i < 420; i++ {
 		emit([]string{randScn(r, i%5 == 0)})
 	}
-	for i := 0; i < 12; i++ {
+	for i := 0; i < 30; i++ {
 		emit([]string{fmt.Sprintf("race c=%d d=%d", r.Pick2(r.Range(1, 6), r.Range(7, 24)), r.Pick2(0, r.Range(0, 2000)))})
 	}
 }
